@@ -529,3 +529,16 @@ pub fn appends_inside_stream_folds(i: &I) -> usize {
     go(i, false, &mut n);
     n
 }
+
+/// does some fold over a stream / map have a last instruction other than `(null)`?
+pub fn stream_fold_with_last_instruction(i: &I) -> bool {
+    let mut found = false;
+    i.visit(&mut |n| {
+        if let I::Fold { iterable: Arg::Var { name, .. }, last: Some(l), .. } = n {
+            if (name.starts_with('$') || name.starts_with('%')) && **l != I::Null {
+                found = true;
+            }
+        }
+    });
+    found
+}
